@@ -669,7 +669,10 @@ def run_case(case):
             n_removed += 1
             res['fired']['removal-changed-router:' + kind] += 1
         prev_obs = obs
-        states.add(digest(repr(tree_shape(app.router.radidict.root))))
+        try:
+            states.add(digest(repr(tree_shape(app.router.radidict.root))))
+        except Exception:       # noqa - a router that keeps its tree elsewhere: measured by its observation instead
+            states.add(digest(obs))
         log(step, 'obs', digest(obs))
         if wsgi_every and (step % wsgi_every == 0 or step == len(ops) - 1):
             paths = wsgi_paths(app, fresh)
